@@ -19,7 +19,7 @@
 (* ctx is a record carrying at least                                       *)
 (*    gdef    : [cls : ClassDef, att : ClassDef, sets : Seq(Coverage)]      *)
 (*    lookups : Seq(Lookup)           Lookup has flag, mfs                  *)
-(*    dev     : [refilter : BOOLEAN, mfsBug : BOOLEAN]  (named deviations)  *)
+(*    dev     : [refilter : BOOLEAN, mfsBug : BOOLEAN, mfp : "att"|"mfs"|"both"] *)
 (***************************************************************************)
 EXTENDS Integers, Sequences, FiniteSets
 
@@ -99,22 +99,34 @@ AttachType(flag)  == flag \div 256
 (* the two mark filters.  ctx.dev.mfsBug = TRUE is the (non-conformant)    *)
 (* reading in which a mark filtering set also hides every non-mark glyph;  *)
 (* it is used only to classify mismatches, never accepted.                 *)
-(* Combination markAttachmentType + useMarkFilteringSet: engines differ    *)
-(* on precedence; programs using both are outside WFFlag.                  *)
+(* Dev_MarkFilterPrecedence (ctx.dev.mfp): a flag with markAttachmentType   *)
+(* AND useMarkFilteringSet.  OpenType states the two filters separately and *)
+(* is silent on the combination; three readings are accepted:              *)
+(*   "both" a mark is seen when it passes both filters (literal reading)    *)
+(*   "mfs"  the filtering set alone decides (HarfBuzz)                       *)
+(*   "att"  the attachment type alone decides (allsorts)                     *)
+(* ignoreMarks supersedes both in every reading.                            *)
 (***************************************************************************)
 Matches(ctx, L, g) ==
-  LET cls == GlyphClass(ctx.gdef, g) IN
+  LET cls == GlyphClass(ctx.gdef, g)
+      attOK == MarkAttach(ctx.gdef, g) = AttachType(L.flag)
+      setOK == InMarkSet(ctx.gdef, L.mfs, g) IN
   /\ ~(IgnoreBase(L.flag) /\ cls = ClassBase)
   /\ ~(IgnoreLig(L.flag) /\ cls = ClassLig)
   /\ IF IgnoreMarks(L.flag) THEN cls # ClassMark
-     ELSE IF AttachType(L.flag) # 0 THEN cls # ClassMark \/ MarkAttach(ctx.gdef, g) = AttachType(L.flag)
-     ELSE IF UseMfs(L.flag) THEN (IF cls = ClassMark THEN InMarkSet(ctx.gdef, L.mfs, g) ELSE ~ctx.dev.mfsBug)
+     ELSE IF AttachType(L.flag) # 0 /\ UseMfs(L.flag)
+          THEN cls # ClassMark \/ (CASE ctx.dev.mfp = "att" -> attOK
+                                     [] ctx.dev.mfp = "mfs" -> setOK
+                                     [] OTHER -> attOK /\ setOK)
+     ELSE IF AttachType(L.flag) # 0 THEN cls # ClassMark \/ attOK
+     ELSE IF UseMfs(L.flag) THEN (IF cls = ClassMark THEN setOK ELSE ~ctx.dev.mfsBug)
      ELSE TRUE
+
+BothMarkFilters(L) == AttachType(L.flag) # 0 /\ UseMfs(L.flag) /\ ~IgnoreMarks(L.flag)
 
 WFFlag(gdef, L) ==
   /\ L.flag \in 0 .. 65535
   /\ ~Bit(L.flag, 32) /\ ~Bit(L.flag, 64) /\ ~Bit(L.flag, 128)        \* reserved bits
-  /\ ~(AttachType(L.flag) # 0 /\ UseMfs(L.flag))
   /\ (UseMfs(L.flag) => L.mfs < Len(gdef.sets))
 
 \* least j > i seen by L, 0 if none
